@@ -1,6 +1,7 @@
 import NixModel.Lemmas.C13Shape
 import NixModel.Lemmas.C13Ids
 import NixModel.Lemmas.C13Supplied
+import NixModel.Lemmas.C13IdsRef
 import NixModel.Generated.FindShape
 import NixModel.Generated.IdLookup
 
@@ -371,6 +372,18 @@ theorem referring_ids_match (texts : Nat → String) (f : File)
     (md : Option Nat) (hm : ∀ t, md = some t → t ∈ keysL f.sections) (k : Nat) (hk : k ∈ keysL f.sections) :
     mdMatchT texts md k = mdMatch f .id md k := by
   rw [mdMatchT_eq inj hm hk, mdMatch_key (by decide)]
+
+/-- **every `Section.referring_*` property and `referring_objects`, the comparison `x.metadata.id == self.id` made on
+the stored id texts, is the inverse of the stored metadata links** when ids never repeat (uuid4 freshness, the
+caller's ids pairwise different: `textsInj_of_supplied`) - in any spelling -/
+theorem referring_ids_code (texts : Nat → String) (inj : TextsInj texts) (f : File) (hB : Bounded f) (k : Nat) :
+    (∀ e ∈ FindShape.sectionReferring,
+      refListT texts FindShape.sectionReferring f e.1 k = .ok (e.2.scope.spec f k)) ∧
+    refObjectsT texts FindShape.sectionReferring FindShape.sectionReferringObjects f k = .ok (refObjects f k) ∧
+    ∀ k', k' ∈ refObjects f k ↔ RefersTo f k' k := by
+  refine ⟨fun e he => ?_, ?_, (referring_objects_code f hB k).2⟩
+  · rw [refListT_eq inj]; exact (referring_code f k e he).1
+  · rw [refObjectsT_eq inj]; exact (referring_objects_code f hB k).1
 
 end IdTexts
 
